@@ -708,8 +708,12 @@ def make_sig(env, spec):
     if spec["pay"] in ("I", "both"):
         files["pay.bin"] = pay
         eff_t["payload"] = b64(pay)
+    stdin = None
     if tmpl:
-        a, f, _ = via_args("-i", dumps(tmpl), spec.get("via", "inline"), "tmpl.jws")
+        text = dumps(tmpl)
+        if spec.get("tmpl_form") == "compact":
+            text = "%s.%s.%s" % (tmpl.get("protected", ""), tmpl.get("payload", ""), tmpl["signature"])
+        a, f, stdin = via_args("-i", text, spec.get("via", "inline"), "tmpl.jws")
         args += a
         files.update(f)
     if spec["pay"] in ("I", "both"):
@@ -736,7 +740,9 @@ def make_sig(env, spec):
         src = "D" + hx(pay) if spec["pay"] in ("I", "both") else "M"
         model = "c18sig\t%s\t%s\t%s\t%d\t%d\t%s" % (dumps(tmpl), dumps(sigs), dumps(keys), spec["compact"], spec["detach"], src)
     sp = dict(spec, usage=usage, signed_payload=unb64(eff_t.get("payload", "")), keyvals=keys)
-    return Case("jws sig", ["jws", "sig"], args, files, None, sp, lib, model)
+    if spec.get("tmpl_form") == "compact":
+        model = None          # the glue model takes the template as JSON text
+    return Case("jws sig", ["jws", "sig"], args, files, stdin, sp, lib, model)
 
 
 def sig_opts(sp):
@@ -844,7 +850,7 @@ def round2_sig(env, c):
         files["pay.bin"] = r["files"].get("pay.out", b"")
         args += ["-I", ("F", "pay.bin")]
         eff["payload"] = b64(files["pay.bin"])
-    keys = [pubonly(k) for k in sp["keyvals"]]
+    keys = [pubonly(k) for k in sp["keyvals"]] + [pubonly(env.K[k]) for k in sp.get("earlier_keys", [])]
     for i, k in enumerate(keys):
         files["k%d.jwk" % i] = dumps(k).encode()
         args += ["-k", ("F", "k%d.jwk" % i)]
@@ -894,6 +900,14 @@ def gen_sig(env, rnd, tier):
         t.pop("payload")
         for compact in (0, 1):
             specs.append(dict(keys=["ec"], sigs=None, pay="I", compact=compact, detach=0, out="stdout", tmpl=t, via="file"))
+    # co-signing: the existing token (with its payload) given in flattened or compact form, inline / by file / on stdin;
+    # afterwards BOTH signers' keys must verify (round 2), and with an HMAC key the output is the library's, bit for bit
+    if "hs" in env.T:
+        for form in ("flat", "compact"):
+            for via in ("inline", "file", "stdin"):
+                for keys in (["hs256b"], ["ec"]):
+                    specs.append(dict(keys=keys, sigs=None, pay="none", compact=0, detach=0, out="stdout", tmpl=dict(env.T["hs"]), tmpl_form=form, via=via,
+                                      earlier_keys=["hs256"]))
     return [make_sig(env, s) for s in specs]
 
 
